@@ -152,7 +152,11 @@ func (y *c03Sys) Root() *c03State {
 	return &c03State{ctx: w.Ctx, w: w, claimed: map[string]bool{}}
 }
 
-func (y *c03Sys) Digest(s *c03State) [32]byte { return s.w.Digest(s.ctx) }
+// the model is part of the state key: a change that turns an operation into a no-op on the stores must
+// not make the successor look like an already visited state (its model differs, and Check has to see it)
+func (y *c03Sys) Digest(s *c03State) [32]byte {
+	return s.w.Digest(s.ctx, []byte(fmt.Sprint(s.outs, s.claimed)))
+}
 
 func (y *c03Sys) Letters(s *c03State) []engine.Letter {
 	ls := []engine.Letter{
